@@ -25,14 +25,19 @@ REQUIRED_THEOREMS = ['CfVerif.C10.' + n for n in (
     'retries_until_answered', 'retry_fires', 'retries_at_timeout', 'retries_at_t0_plus_kT', 'no_retry_after_answer',
     'longest_prefix_only', 'nothing_on_closed_link', 'no_cross_session_tx', 'reliable_link_no_retry',
     'reliable_links_no_timers', 'driver_needs_resending', 'gen_link_read_once', 'gen_forget_order', 'gen_check_better', 'gen_deferred_link_error', 'driver_error_inside_send', 'after_callbacks_nothing',
-    'retries_until_answered_reentrant', 'no_cross_session_tx_reentrant', 'late_forget_counterexample', 'live_no_retry_after_answer_counterexample',
+    'retries_until_answered_reentrant', 'no_cross_session_tx_reentrant', 'late_forget_counterexample',
+    'gen_lock_released', 'raising_sends_transparent', 'timers_never_block', 'retries_until_answered_with_raising_sends',
+    'flat_send_lock_counterexample', 'live_no_retry_after_answer_counterexample',
     'live_no_cross_session_tx_counterexample', 'live_retries_at_timeout_counterexample')]
 TRUSTED = ['harness/corr/c10.py: the path analysis of send_packet (conditions -> Boolean functions over six atoms), the extraction of '
            'close_link/_link_error_cb/open_link flags, and the correspondence harness',
            'threading.Timer modelled as: wait(interval); if not cancelled: call function (two separately scheduled steps); '
            'cancel() after the first step has no effect; Timer objects are truthy',
            'dict semantics of _answer_patterns (insertion order, get/set/del by tuple equality)',
-           'the fake Timer/link/Commander-proxy substitutions reproduce what the real threads would do at yield-point granularity']
+           'the fake Timer/link/Commander-proxy substitutions reproduce what the real threads would do at yield-point granularity',
+           'Crazyflie._send_lock replaced (on the instance) by a lock that reports `blocked` instead of hanging when it is acquired while held; '
+           '`current_thread` in the cflib.crazyflie namespace answers with the identity of the scripted thread (application / timer i / driver)',
+           'a raising driver send_packet counts as a transmission: the log records the CALL of link.send_packet']
 ASSUMPTIONS = ['atomic steps: a send_packet critical section, one _check_for_answers call, the two steps of a timer thread, the two halves '
                'of close_link, _link_error_cb, open_link; CPython preemption INSIDE these (e.g. _check_for_answers deleting a pattern '
                'between the identity test and the re-registration in send_packet, or close_link racing _check_for_answers) is outside the model',
@@ -282,35 +287,52 @@ def _critical_section(cls, sp, rest, g):
     tries = [st for st in rest if isinstance(st, ast.Try)]
     flags = {'sendLockReleasedInFinally': False, 'sendOwnerTracked': False, 'sendRunsDeferredErrorAfterRelease': False}
     body = rest
-    if tries:
-        X.expect(len(tries) == 1, 'send_packet: several try blocks')
-        t = tries[0]
+    cleanup = {'errmsg = self._deferred_link_error', 'self._deferred_link_error = None', 'self._send_lock_owner = None',
+               'self._send_lock.release()'}
+
+    def locked_call(st):
+        """`self.<method of the class>(<names>)` as a statement: the call of the locked part"""
+        if isinstance(st, ast.Expr) and isinstance(st.value, ast.Call) and isinstance(st.value.func, ast.Attribute) \
+                and _u(st.value.func.value) == 'self' and not st.value.keywords and st.value.args \
+                and all(isinstance(a, ast.Name) for a in st.value.args):
+            for ch in cls.body:
+                if isinstance(ch, ast.FunctionDef) and ch.name == st.value.func.attr:
+                    return st.value, ch
+        return None
+    flat = [st for st in rest if locked_call(st)]
+    if tries or flat:
+        X.expect(len(tries) + len(flat) == 1, 'send_packet: several try blocks / calls of a locked part')
+        t = (tries or flat)[0]
         i = rest.index(t)
         pre = [_u(st) for st in rest[:i]]
         X.expect(pre[:1] == ['self._send_lock.acquire()'] and set(pre[1:]) <= {'self._send_lock_owner = current_thread()'},
-                 'send_packet: statements before the try block are not understood: %s' % pre)
-        X.expect(not t.handlers and not t.orelse and len(t.body) == 1 and isinstance(t.body[0], ast.Expr) and isinstance(t.body[0].value, ast.Call),
-                 'send_packet: the try block is not a single call of the locked part')
-        call = t.body[0].value
-        X.expect(isinstance(call.func, ast.Attribute) and _u(call.func.value) == 'self' and not call.keywords and
-                 all(isinstance(a, ast.Name) for a in call.args), 'send_packet: call of the locked part is not understood: ' + _u(call))
-        callee = X.find(cls, call.func.attr)
+                 'send_packet: statements before the locked part are not understood: %s' % pre)
+        post = rest[i + 1:]
+        if tries:
+            X.expect(not t.handlers and not t.orelse and len(t.body) == 1 and locked_call(t.body[0]),
+                     'send_packet: the try block is not a single call of the locked part')
+            call, callee = locked_call(t.body[0])
+            fin = [_u(st) for st in t.finalbody]
+            X.expect(set(fin) <= cleanup, 'send_packet: finally block is not understood: %s' % fin)
+            flags['sendLockReleasedInFinally'] = fin[-1:] == ['self._send_lock.release()']
+        else:
+            # straight-line code: the cleanup only runs when the locked part returns normally
+            call, callee = locked_call(t)
+            fin = []
+            while post and _u(post[0]) in cleanup:
+                fin.append(_u(post.pop(0)))
+            X.expect(fin[-1:] == ['self._send_lock.release()'], 'send_packet: the lock is not released after the locked part')
         cparams = [a.arg for a in callee.args.args][1:]
         X.expect(cparams == [a.id for a in call.args] and set(cparams) <= {a.arg for a in sp.args.args},
                  'send_packet: %s is not called with its own parameter names %s' % (call.func.attr, cparams))
-        fin = [_u(st) for st in t.finalbody]
-        X.expect(set(fin) <= {'errmsg = self._deferred_link_error', 'self._deferred_link_error = None', 'self._send_lock_owner = None',
-                              'self._send_lock.release()'}, 'send_packet: finally block is not understood: %s' % fin)
-        flags['sendLockReleasedInFinally'] = fin[-1:] == ['self._send_lock.release()']
         flags['sendOwnerTracked'] = 'self._send_lock_owner = current_thread()' in pre and 'self._send_lock_owner = None' in fin \
             and fin.index('self._send_lock_owner = None') < len(fin) - 1
-        post = rest[i + 1:]
         picks = 'errmsg = self._deferred_link_error' in fin and 'self._deferred_link_error = None' in fin and \
             fin.index('errmsg = self._deferred_link_error') < fin.index('self._deferred_link_error = None')
         if post:
             X.expect(len(post) == 1 and isinstance(post[0], ast.If) and _u(post[0].test) == 'errmsg is not None' and not post[0].orelse and
-                     [_u(b) for b in post[0].body] == ['self._link_error_cb(errmsg)'], 'send_packet: statements after the try block are not understood')
-        flags['sendRunsDeferredErrorAfterRelease'] = bool(post) and picks and flags['sendLockReleasedInFinally']
+                     [_u(b) for b in post[0].body] == ['self._link_error_cb(errmsg)'], 'send_packet: statements after the locked part are not understood')
+        flags['sendRunsDeferredErrorAfterRelease'] = bool(post) and picks and fin[-1:] == ['self._send_lock.release()']
         body = [st for st in callee.body if not (isinstance(st, ast.Expr) and isinstance(st.value, ast.Constant))]
     for k, v in flags.items():
         g.raw('def %s : Bool := %s' % (k, _lbool(v)))
@@ -566,18 +588,55 @@ class FakeLink:
 
     def send_packet(self, pk):
         self.log.append((self.sid, getattr(pk, '_c10_id', 0), 1 if self.closed else 0))
+        if self.raise_next:
+            # a driver whose send_packet raises (socket / serial / USB error)
+            self.raise_next = False
+            raise OSError('scripted driver exception in send_packet')
         if self.fail_next:
             # what RadioDriver.send_packet does when its out queue stays full: report the error from inside the call
             self.fail_next = False
             self.link_error_callback('scripted driver error inside send_packet')
 
     fail_next = False
+    raise_next = False
 
     def receive_packet(self, wait=0):
         return None
 
     def close(self):
         self.closed = True
+
+
+class WouldBlock(BaseException):
+    """the thread would wait for ever for _send_lock (harness-level; not an Exception, so that library code cannot swallow it)"""
+
+
+class FakeLock:
+    """Stand-in for Crazyflie._send_lock (a threading.Lock).  All scripted steps run in the harness thread, one after the other, so
+    an acquire() of a lock that is still held can never succeed: it is reported as `blocked` instead of hanging the harness."""
+
+    def __init__(self):
+        self.held = False
+
+    def acquire(self, blocking=True, timeout=-1):
+        if self.held:
+            raise WouldBlock()
+        self.held = True
+        return True
+
+    def release(self):
+        if not self.held:
+            raise RuntimeError('release unlocked lock')
+        self.held = False
+
+    def locked(self):
+        return self.held
+
+    def __enter__(self):
+        self.acquire()
+
+    def __exit__(self, *a):
+        self.release()
 
 
 class _NoThread:
@@ -618,6 +677,11 @@ class Real:
         self.real_timer = cfm.Timer
         self.real_get = cflib.crtp.get_link_driver
         cfm.Timer = FakeTimer
+        # every scripted step is a step of some thread (application, timer i, driver); the library asks who is running
+        # (`_send_lock_owner is current_thread()`), so the name `current_thread` of the cflib.crazyflie namespace answers with that
+        self.real_current_thread = getattr(cfm, 'current_thread', None)
+        self.thread_token = 'app'
+        cfm.current_thread = lambda: self.thread_token
         FakeTimer.registry, FakeTimer.clock = [], [0]
         self.cf = cfm.Crazyflie(rw_cache=None)
         # no dispatcher thread: the harness delivers packets itself through cf.packet_received.call (as the thread does)
@@ -648,11 +712,20 @@ class Real:
         self.mid = None
         self.want_mid = False
 
+        self.cf._send_lock = FakeLock()
+        self.subscriber_raises = False
+
+        def raising_subscriber(pk):
+            if self.subscriber_raises:
+                self.subscriber_raises = False
+                raise RuntimeError('scripted exception in a packet_sent subscriber')
+
         def packet_sent(pk):
             # last statement of the critical section: what a failing send looks like before the deferred link error runs
             if self.want_mid:
                 self.mid = self.delta()
         self.cf.packet_sent.add_callback(packet_sent)
+        self.cf.packet_sent.add_callback(raising_subscriber)
         self.reset()
 
     def _slot(self, kind):
@@ -662,10 +735,15 @@ class Real:
 
     def restore(self):
         self.cfm.Timer = self.real_timer
+        if self.real_current_thread is not None:
+            self.cfm.current_thread = self.real_current_thread
         self.crtp.get_link_driver = self.real_get
         Real._inst = None
 
     def reset(self):
+        self.cf._send_lock.held = False
+        self.cf._send_lock_owner = None
+        self.cf._deferred_link_error = None
         try:
             self.cf.close_link()
         except Exception:
@@ -709,7 +787,19 @@ class Real:
         return self.pks[pid]
 
     # -- one scripted step; returns the reply line(s)
-    def do(self, op):
+    def do(self, op, scripted_exc=False):
+        k = op[0]
+        outer = self.thread_token
+        if k in ('run', 'runf', 'runx'):
+            self.thread_token = 'timer-%s' % (op[-1],)
+        elif k in ('send', 'sendf', 'sendx'):
+            self.thread_token = 'app'
+        try:
+            return self._do(op, scripted_exc)
+        finally:
+            self.thread_token = outer
+
+    def _do(self, op, scripted_exc=False):
         k = op[0]
         if k in ('sendf', 'runf'):
             # the driver reports a link error from inside link.send_packet
@@ -723,6 +813,20 @@ class Real:
                 if self.cf.link is not None:
                     self.cf.link.fail_next = False
             return rep if self.mid is None or rep.startswith('err') else self.mid + ' | ' + rep
+        if k in ('sendx', 'runx'):
+            # op[1]: 1 = the driver's send_packet raises, 0 = a packet_sent subscriber raises
+            if op[1]:
+                if self.cf.link is not None:
+                    self.cf.link.raise_next = True
+            else:
+                self.subscriber_raises = True
+            try:
+                rep = self.do(('send' if k == 'sendx' else 'run',) + tuple(op[2:]), scripted_exc=True)
+            finally:
+                self.subscriber_raises = False
+                if self.cf.link is not None:
+                    self.cf.link.raise_next = False
+            return rep
         if k in ('open', 'lerr', 'close'):
             raise AssertionError('composite step: use do_multi')
         try:
@@ -764,7 +868,11 @@ class Real:
                 if i < len(self.timers) and self.timers[i].state == 'E':
                     t = self.timers[i]
                     t.state = 'D'
-                    t.function(*t.args, **t.kwargs)
+                    try:
+                        t.function(*t.args, **t.kwargs)
+                    except WouldBlock:
+                        t.state = 'E'      # the callback never gets past the lock: the timer thread hangs in it for ever
+                        raise
                 else:
                     return 'err not_enabled'
             elif k == 'adv':
@@ -773,6 +881,13 @@ class Real:
                 (self.error_cb or self.cf._link_error_cb)('scripted link error')
             else:
                 raise AssertionError('unknown op %r' % (op,))
+        except WouldBlock:
+            self.seen_tx, self.seen_timers = len(self.log), len(self.timers)
+            return 'err blocked'
+        except (OSError, RuntimeError) as e:
+            if scripted_exc and 'scripted' in str(e):
+                return 'exc' + self.delta()[2:]       # the exception reached the caller of send_packet (the timer thread for a retry)
+            return self.err(e)
         except Exception as e:
             return self.err(e)
         return self.delta()
@@ -784,34 +899,42 @@ class Real:
           ('lerr'[, nested])             the driver's error callback: lerr, steps run from inside the first application callback
                                          it calls (connection_failed / disconnected / disconnected_link_error), lerrend
           ('open', nr[, nested])         open_link(): open, steps run where open_link starts the connection set-up on the new link, openend"""
+        return [r for _, r in self.do_pairs(op)]
+
+    def do_pairs(self, op):
+        """[(driver line, reply)] of one scripted step.  A composite step that blocks for ever on the send lock ends there."""
         k = op[0]
         if k not in ('close', 'lerr', 'open'):
-            return [self.do(op)]
+            return [(op_line(op), self.do(op))]
         out = []
         nested = list(op[2]) if len(op) > 2 else (list(op[1]) if k == 'lerr' and len(op) > 1 else [])
+        first, last = {'close': ('close2', 'closeend'), 'lerr': ('lerr', 'lerrend'), 'open': ('open %d' % (op[1] if k == 'open' else 0), 'openend')}[k]
         fired = []
 
         def slot():
             fired.append(1)
-            out.append(self.delta())
+            out.append((first, self.delta()))
             for o in nested:
-                out.extend(self.do_multi(o))
+                out.extend(self.do_pairs(o))
 
         def call(fn):
             try:
                 fn()
                 if not fired:       # the operation did not reach its callback slot: the nested steps run right after it
                     slot()
-                out.append(self.delta())
+                out.append((last, self.delta()))
+            except WouldBlock:      # the thread hangs in the operation for ever
+                self.seen_tx, self.seen_timers = len(self.log), len(self.timers)
+                out.append(('close1' if k == 'close' and not any(l == 'close1' for l, _ in out) else (last if fired else first), 'err blocked'))
             except Exception as e:
                 if not fired:
-                    out.append(self.err(e))
-                out.append(self.err(e))
+                    out.append((first, self.err(e)))
+                out.append((last, self.err(e)))
         if k == 'close':
             def setpoint_hook():
-                out.append(self.delta())
+                out.append(('close1', self.delta()))
                 for o in op[1]:
-                    out.extend(self.do_multi(o))
+                    out.extend(self.do_pairs(o))
                 self.slot_hook['app'] = slot        # only now: the steps in between may run application callbacks of their own
             if self.cf.link is not None:
                 self.after_setpoint = setpoint_hook
@@ -821,7 +944,11 @@ class Real:
             self.after_setpoint = None
         elif k == 'lerr':
             self.slot_hook['app'] = slot
-            call(lambda: (self.error_cb or self.cf._link_error_cb)('scripted link error'))
+            outer, self.thread_token = self.thread_token, 'driver'      # e.g. the radio thread's 'Too many packets lost'
+            try:
+                call(lambda: (self.error_cb or self.cf._link_error_cb)('scripted link error'))
+            finally:
+                self.thread_token = outer
         else:
             def get_link_driver(uri, stats_cb=None, error_cb=None):
                 self.error_cb = error_cb
@@ -859,6 +986,10 @@ def op_line(op):
     k = op[0]
     if k in ('send', 'sendf'):
         return '%s %d %d %d %s %d' % (k, op[1], op[2], op[3], ','.join(map(str, op[4])) or '-', op[5])
+    if k == 'sendx':
+        return 'sendx %d %d %d %s %d' % (op[2], op[3], op[4], ','.join(map(str, op[5])) or '-', op[6])
+    if k == 'runx':
+        return 'runx %d' % op[2]
     if k == 'recv':
         return 'recv %d %s' % (op[1], ','.join(map(str, op[2])) or '-')
     return ' '.join(str(x) for x in op)
@@ -870,8 +1001,9 @@ def run_real(script):
     r.reset()
     lines, replies = [], []
     for op in script:
-        lines += op_lines(op)
-        replies += r.do_multi(op)
+        for l, rep in r.do_pairs(op):
+            lines.append(l)
+            replies.append(rep)
     return lines, replies
 
 
@@ -895,10 +1027,9 @@ class Script:
 
     def do(self, op):
         self.ops.append(op)
-        ls, rs = op_lines(op), self.real.do_multi(op)
-        assert len(ls) == len(rs), (op, ls, rs)
-        self.lines += ls
-        self.replies += rs
+        for l, rep in self.real.do_pairs(op):
+            self.lines.append(l)
+            self.replies.append(rep)
         return self.replies[-1]
 
     def send(self, header, expected, tmo=200, size=None, explicit=False, pid=None):
@@ -965,6 +1096,8 @@ def rand_step(rng, sc, allow_close=True):
         sc.next_id += 1
         header = rng.choice(HEADERS[:2] if rng.random() < 0.7 else HEADERS)
         sc.sent.append((pid, header, size, exp, tmo))
+        if rng.random() < 0.07:         # the driver's send_packet (1) or a packet_sent subscriber (0) raises
+            return ('sendx', rng.randrange(2), pid, header, size, exp, tmo, rng.random() < 0.3)
         return ('sendf' if rng.random() < 0.06 else 'send', pid, header, size, exp, tmo, rng.random() < 0.3)
     if r < 0.40:
         h, d = rand_reply(rng, sc)
@@ -976,9 +1109,10 @@ def rand_step(rng, sc, allow_close=True):
         return ('expire', rng.randrange(len(sc.real.timers) + 1))
     if r < 0.74:
         k = 'runf' if rng.random() < 0.08 else 'run'
-        if expired and rng.random() < 0.9:
-            return (k, rng.choice(expired))
-        return (k, rng.randrange(len(sc.real.timers) + 1))
+        i = rng.choice(expired) if expired and rng.random() < 0.9 else rng.randrange(len(sc.real.timers) + 1)
+        if rng.random() < 0.08:
+            return ('runx', rng.randrange(2), i)
+        return (k, i)
     if r < 0.86:
         dls = sorted(sc.real.timers[i].deadline - now for i in armed if sc.real.timers[i].deadline > now)
         if dls and rng.random() < 0.8:
@@ -1082,6 +1216,16 @@ def gen_families(rng, thorough):
                            [('adv', 1000)] + [('expire', i) for i in range(6)] + [('run', i) for i in range(6)]
                     out.append(('order:%s:nr%d:t%d' % (name, nr, tmo),
                                 [('open', nr), ('send', 1, H, 2, (3, 7), tmo, tmo != 200)] + fold_close(order) + tail))
+    # a send raises (driver / packet_sent subscriber) while a request is pending: the timers must go on
+    for nr in (1, 0):
+        for drv in (1, 0):
+            timer_thread = [('adv', 200), ('expire', 0), ('run', 0), ('adv', 200), ('expire', 1), ('runx', drv, 1), ('adv', 200), ('expire', 2), ('run', 2)]
+            for name, oth in (('raise', [('sendx', drv, 2, HEADERS[3], 14, (), 200, False)]),
+                              ('raise-request', [('sendx', drv, 2, H, 2, (3, 8), 1000, True), ('send', 3, H, 1, (3,), 200, False)])):
+                for order in interleavings(timer_thread, oth):
+                    out.append(('order:%s:nr%d:t200' % (name, nr),
+                                [('open', nr), ('send', 1, H, 2, (3, 7), 200, False)] + order +
+                                [('adv', 1000)] + [('expire', i) for i in range(6)] + [('run', i) for i in range(6)] + [('close', [])]))
     # the application calls back into the library from inside the callbacks of a link error / close_link:
     # reconnect + immediate request (same or another pattern), at every position relative to the old timer's steps
     for nr in (1, 0):
@@ -1115,19 +1259,20 @@ def gen_families(rng, thorough):
 
 
 def gen_exhaustive(depth):
-    """EVERY sequence of `depth` steps over an 18-step alphabet after two prefix-sharing requests were sent"""
+    """EVERY sequence of `depth` steps over a 20-step alphabet after two prefix-sharing requests were sent"""
     import itertools
     H = HEADERS[0]
     alphabet = [('adv', 200), ('adv', 800), ('expire', 0), ('expire', 1), ('expire', 2), ('run', 0), ('run', 1), ('run', 2),
                 ('recv', H, (1, 9)), ('recv', H, (1, 2, 9)), ('close', []), ('open', 1), ('lerr',),
                 ('send', 3, H, 1, (1,), 200, False), ('setnr', 0), ('runf', 0),
+                ('sendx', 1, 6, HEADERS[3], 14, (), 200, False), ('runx', 0, 0),
                 ('lerr', [('open', 1), ('send', 4, H, 2, (1, 3), 200, False)]),
                 ('close', [], [('open', 1), ('send', 5, H, 1, (1,), 200, False)])]
     prefix = [('open', 1), ('send', 1, H, 1, (1,), 200, False), ('send', 2, H, 2, (1, 2), 1000, True)]
     if depth > 3:       # thorough: all 3-step sequences over the full alphabet + all `depth`-step ones over its core
         for seq in itertools.product(alphabet, repeat=3):
             yield 'exhaustive', prefix + list(seq)
-        alphabet = [a for a in alphabet if a not in (('adv', 800), ('expire', 2), ('run', 2), ('setnr', 0), ('runf', 0), ('open', 1))]
+        alphabet = [a for a in alphabet if a not in (('adv', 800), ('expire', 2), ('run', 2), ('setnr', 0), ('runf', 0), ('open', 1), ('runx', 0, 0))]
     for seq in itertools.product(alphabet, repeat=depth):
         yield 'exhaustive', prefix + list(seq)
 
@@ -1160,6 +1305,8 @@ def _vsched_scenario(kind, tmo_ms):
 
             def send_packet(self, pk):
                 vsched.emit('tx', int(round(vsched.now() * 1000)), self.sid, getattr(pk, '_c10_id', 0), int(self.closed))
+                if kind == 'raise' and getattr(pk, '_c10_id', 0) == 2:
+                    raise OSError('scripted driver exception in send_packet')
 
             def receive_packet(self, wait=0):
                 try:
@@ -1201,6 +1348,17 @@ def _vsched_scenario(kind, tmo_ms):
                 holder['err']('scripted link error')
                 cf.open_link('fake://0')
                 vsched.time.sleep(T + T / 2)
+            elif kind == 'raise':
+                # an unrelated send raises in the driver while the request is pending: its retries must go on
+                pk2 = CRTPPacket()
+                pk2.set_header(4, 0)
+                pk2.data = bytes(14)
+                pk2._c10_id = 2
+                try:
+                    cf.send_packet(pk2)
+                except OSError:
+                    pass
+                vsched.time.sleep(2 * T + T / 2)
             elif kind == 'reentrant-lerr':
                 # the application reconnects from inside connection_failed / connection_lost and asks again at once
                 pk2 = CRTPPacket()
@@ -1249,7 +1407,7 @@ def model_logs(lines, replies, upto):
     for l, r in zip(lines, replies):
         if l.startswith('adv '):
             now += int(l.split(' ')[1])
-        if r.startswith('ok tx=') and not r.startswith('ok tx=-'):
+        if (r.startswith('ok tx=') or r.startswith('exc tx=')) and r.split(' ')[1] != 'tx=-':
             for t in r.split(' ')[1][3:].split(','):
                 sid, pid, closed = (int(x) for x in t.split(':'))
                 if now <= upto:
@@ -1260,8 +1418,8 @@ def model_logs(lines, replies, upto):
 def vsched_accept(ctx, model_by_family):
     """every transmission log the real threads produce must be one the model produces for some ordering of the same steps"""
     thorough = ctx.tier == 'thorough'
-    for kind in ('reply', 'close-reopen', 'error-reopen', 'reentrant-lerr'):
-        for tmo in ((200, 1000) if thorough else (200,)):
+    for kind in ('reply', 'close-reopen', 'error-reopen', 'reentrant-lerr', 'raise'):
+        for tmo in ((200, 1000) if thorough and kind != 'raise' else (200,)):
             accepted = model_by_family.get('order:%s:nr1:t%d' % (kind, tmo), set())
             outs, n, complete, problems = vsched_outcomes(kind, tmo, 2, 4000 if thorough else 250)
             ctx.count('vsched:%s:schedules' % kind, n)
@@ -1283,7 +1441,7 @@ RULE = ('cases = scripts of send / reply / timer-expiry / timer-callback / time 
         'link-error / open / needs_resending-change steps run on the real Crazyflie object (recording fake link, manually fired '
         'Timer) and on the Lean model; systematic families enumerate EVERY interleaving of the timer thread\'s steps with a reply, a '
         'close+reopen, a link error+reopen, a re-registration of the pattern, for needs_resending on/off and both timeouts, and all '
-        'non-empty subsets of five prefix-sharing patterns x nine replies; EVERY sequence of 3 (thorough: 4) steps over an 18-step '
+        'non-empty subsets of five prefix-sharing patterns x nine replies; EVERY sequence of 3 (thorough: 4) steps over a 20-step '
         'alphabet (incl. reconnect + request from inside the link-error / close callbacks) after two prefix-sharing requests; random scripts follow the real timer states; real dispatcher and Timer threads '
         'under the virtual-time scheduler (depth-first over the schedules with <= 2 preemptions) must produce transmission logs the '
         'model produces for some ordering; '
@@ -1348,17 +1506,29 @@ def monitor(lines, replies):
     A request = one `send` with a non-empty expected reply on an open link that needs resending."""
     out = []
     # a send / callback during which the driver reported a link error = that step followed by the (deferred) link error
-    xl, xr = [], []
-    for line, rep in zip(lines, replies):
+    xl, xr, xo = [], [], []      # xo: how many of the ORIGINAL lines lead up to each expanded step (for the replay)
+    for n0, (line, rep) in enumerate(zip(lines, replies)):
+        if line.startswith('sendx ') or line.startswith('runx '):
+            # the driver / a subscriber raised: for the retry mechanism the step is the ordinary one
+            line = line.replace('sendx ', 'send ', 1).replace('runx ', 'run ', 1)
+            if rep.startswith('exc '):
+                rep = 'ok ' + rep[4:]
+        if rep == 'err blocked':
+            w0 = line.split(' ')[0]
+            out.append(('send-lock-held', 'a step (%s) waits for ever for the send lock, which an earlier send_packet that raised never released: '
+                        'pending requests are not retransmitted and new ones not sent although the link is open' % w0, len(xl)))
         if line.startswith('sendf ') or line.startswith('runf '):
             line = line.replace('sendf ', 'send ', 1).replace('runf ', 'run ', 1)
             if ' | ' in rep:
                 a, b = rep.split(' | ')
                 xl += [line, 'lerr']
                 xr += [a, b]
+                xo += [n0, n0]
                 continue
         xl.append(line)
         xr.append(rep)
+        xo.append(n0)
+    orig_lines, orig_replies = lines, replies
     lines, replies = xl, xr
     now = 0
     link = None            # (sid, needs_resending)
@@ -1461,7 +1631,7 @@ def monitor(lines, replies):
             if not live:
                 out.append(('missing-retry', 'an unanswered request on an open link has no retry timer pending', step))
                 r['superseded'] = True      # report once
-    return [(key, what, lines[:step + 1], replies[step]) for key, what, step in out]
+    return [(key, what, orig_lines[:xo[step] + 1], orig_replies[xo[step]]) for key, what, step in out]
 
 
 def load_corpus():
@@ -1548,12 +1718,12 @@ def search(ctx):
         Real.get().restore()
     ctx.count('search:scripts', n)
     # real dispatcher / timer threads under the virtual-time scheduler (depth-first over the schedules, <= 2 preemptions)
-    for kind in ('reply', 'close-reopen', 'error-reopen', 'reentrant-lerr'):
+    for kind in ('reply', 'close-reopen', 'error-reopen', 'reentrant-lerr', 'raise'):
         outs, runs, complete, problems = vsched_outcomes(kind, 200, 2, 3000 if ctx.tier == 'thorough' else 250)
         ctx.count('search:vsched-schedules', runs)
         for log, (cnt, choices) in sorted(outs.items()):
             inp = {'family': 'vsched:' + kind, 'timeout_ms': 200, 'schedule': choices[:120], 'log(time,link,packet,closed)': log}
-            if any((t[1] != 0 and t[2] == 1) or (t[1] != 1 and t[2] == 2) for t in log) and 'cross-session-tx' not in seen:
+            if any((t[1] != 0 and t[2] == 1) or (kind == 'reentrant-lerr' and t[1] != 1 and t[2] == 2) for t in log) and 'cross-session-tx' not in seen:
                 seen.add('cross-session-tx')
                 ctx.witness('cross-session-tx', 'a request of an earlier session was transmitted on the link of a later session', inp)
             if kind == 'reentrant-lerr' and any(t[2] == 2 for t in log) and not any(t[2] == 2 and t[0] > min(u[0] for u in log if u[2] == 2) for t in log) \
@@ -1565,5 +1735,14 @@ def search(ctx):
                 seen.add('tx-during-link-error')
                 ctx.witness('tx-during-link-error', 'a packet was handed to a link object that the link-error callback of another thread '
                             'had closed while send_packet was in progress', inp)
+        if kind == 'raise':
+            for log, (cnt, choices) in sorted(outs.items()):
+                if sum(1 for t in log if t[2] == 1) < 3 and 'send-lock-held' not in seen:
+                    seen.add('send-lock-held')
+                    ctx.witness('send-lock-held', 'after an unrelated send_packet raised in the driver, the pending request is not retransmitted at its '
+                                'timeout interval any more although the link stays open (real threads: the retry timer waits for the send lock for ever)',
+                                {'family': 'vsched:raise', 'timeout_ms': 200, 'schedule': choices[:120], 'log(time,link,packet,closed)': log,
+                                 'outcomes': [p[0] for p in problems[:3]]})
+            problems = []
         if problems:
             ctx.note('vsched %s: %d schedules ended with %s (connection-lifecycle defects D2/D3, property C02)' % (kind, len(problems), problems[0][:3]))
